@@ -330,7 +330,7 @@ class AppendDim:
         a = arrs[i % len(arrs)]
         if len(a.dimensions) >= max(a.data.ndim, 1) + 1:
             return None
-        k = P.pick(rng, ["sample", "range", "set", "range_self"])
+        k = P.pick(rng, run.knobs.get("dim_kinds", ["sample", "range", "set", "range_self"]))
         o = {"op": "append_dim", "arr": i, "k": k, "pv": gen_via(run, rng)}
         if k == "sample":
             o["interval"] = P.pick(rng, [1.0, 0.5, 2, 0.001, 10.0])
